@@ -19,6 +19,7 @@ package main
 import (
 	"bytes"
 	"fmt"
+	"reflect"
 	"strings"
 	"sync"
 
@@ -85,22 +86,22 @@ func validStep(fs featset) poolStep {
 	v := int16(rng.Intn(2))
 	switch rng.Intn(4) {
 	case 0:
-		s := &pconsumer.Subscription{Version: v, Topics: rTopics(), UserData: rUser()}
+		s := pconsumer.Subscription{Version: v, Topics: rTopics(), UserData: rUser()}
 		if v == 1 {
 			s.OwnedPartitions = rTopicPartitions(fs)
 		}
 		return poolStep{desc: fmt.Sprintf("v.sub%d", v), version: v, value: s, fresh: func() interface{} { return &pconsumer.Subscription{} }}
 	case 1:
-		a := &pconsumer.Assignment{Version: v, AssignedPartitions: rTopicPartitions(fs), UserData: rUser()}
+		a := pconsumer.Assignment{Version: v, AssignedPartitions: rTopicPartitions(fs), UserData: rUser()}
 		return poolStep{desc: fmt.Sprintf("v.asg%d", v), version: v, value: a, fresh: func() interface{} { return &pconsumer.Assignment{} }}
 	case 2:
-		tp := &pconsumer.TopicPartition{Topic: "t" + rstr(true, featset{}), Partitions: []int32{ri32(), ri32()}}
+		tp := pconsumer.TopicPartition{Topic: "t" + rstr(true, featset{}), Partitions: []int32{ri32(), ri32()}}
 		if len(tp.Topic) > 30 {
 			tp.Topic = tp.Topic[:30]
 		}
 		return poolStep{desc: fmt.Sprintf("v.tp%d", v), version: v, value: tp, fresh: func() interface{} { return &pconsumer.TopicPartition{} }}
 	}
-	l := &poolLocal{A: ri32(), B: "b" + fmt.Sprint(rng.Intn(1000)), C: rUser(), E: ri64()}
+	l := poolLocal{A: ri32(), B: "b" + fmt.Sprint(rng.Intn(1000)), C: rUser(), E: ri64()}
 	if v == 1 {
 		l.D = rTopics()
 	}
@@ -110,7 +111,7 @@ func validStep(fs featset) poolStep {
 func failingStep(fs featset) poolStep {
 	switch rng.Intn(3) {
 	case 0: // a version-0 subscription read with the version-1 schema (an old member's metadata in Client.JoinGroup)
-		s := &pconsumer.Subscription{Version: 0, Topics: append(rTopics(), "x"), UserData: []byte("u")}
+		s := pconsumer.Subscription{Version: 0, Topics: append(rTopics(), "x"), UserData: []byte("u")}
 		b, err := protocol.Marshal(0, s)
 		if err != nil {
 			panic(err)
@@ -151,7 +152,7 @@ func runStep(st poolStep) (out string) {
 	if err := protocol.Unmarshal(b, st.version, got); err != nil {
 		return "BAD:unmarshal-of-a-valid-encoding:" + strings.ReplaceAll(err.Error(), " ", "_")
 	}
-	b2, err := protocol.Marshal(st.version, got)
+	b2, err := protocol.Marshal(st.version, reflect.ValueOf(got).Elem().Interface())
 	if err != nil {
 		return "BAD:remarshal:" + strings.ReplaceAll(err.Error(), " ", "_")
 	}
